@@ -98,7 +98,7 @@ def run(ctx):
         last = [e for e in evs if e["ev"] == "e2e-conn-done"][-1]
         end = [e for e in evs if e["ev"] == "e2e-end"][-1]
         runs.append(dict(kind="predict", settings=settings, fps=fps, model=model, model_events=mev, result=last, scen=scen,
-                         expected_motion={}, bus=end["bus"]))
+                         expected_motion={}, bus=end["bus"], end=end))
         events.append(dict(ev="e2eclears", sent=nclear, seen=end["clears"]))
         for e in evs:
             if e["ev"] == "e2e-dbus" and e["member"] == "CameraInfo" and "reply" in e:
@@ -108,6 +108,24 @@ def run(ctx):
                 events.append(dict(ev="e2ecut", reading=e["reading"] > 0 and e["conn"] == 0, ended=e["ended"] >= 1))
     # ---------------- two dozen connections within one daemon run (frames of every one of them delivered once, in order)
     runs += fam_e2e.many_reconnects_run(ctx, binp)
+    # ---------------- beyond the listed properties: the daemon's connection lifecycle (Lifecycle.tla), a NOTE only
+    lc = dict(design=None, trace=None)
+    try:
+        ld = ctx.tlc("lifecycle_design", "Lifecycle",
+                     mkcfg(spec="Spec", constants=dict(FpsSet={1, 2, 3}, MaxConn=3, MaxFrames=46, Wrap=1048576, Compounding=False),
+                           invariants=["TypeOK", "IntervalsFromHeader", "ProgressLines", "NeverCrashes"], properties=["ListensAgain"], deadlock=False),
+                     timeout=600, heap="2g")
+        lu = ctx.tlc("lifecycle_compounding", "Lifecycle",
+                     mkcfg(spec="Spec", constants=dict(FpsSet={4}, MaxConn=4, MaxFrames=3, Wrap=256, Compounding=True),
+                           invariants=["NeverCrashes"], deadlock=False), timeout=300, heap="2g")
+        lc["design"] = dict(ok=ld["ok"], distinct=ld.get("distinct"), compounding_variant_crashes=not lu["ok"])
+        lc["trace"] = fam_e2e.judge_lifecycle(ctx, runs)
+        if lc["trace"].get("accepted") is False or not ld["ok"]:
+            print("NOTE: the daemon's connection lifecycle differs from Lifecycle.tla (not one of the listed properties): trace rejected "
+                  "after %s events at %s, design ok=%s" % (lc["trace"].get("rejected_after"), json.dumps(lc["trace"].get("rejected_event")), ld["ok"]))
+            ctx.notes.append("Lifecycle: %s" % json.dumps(lc["trace"])[:300])
+    except vlib.Infra as e:
+        lc["note"] = "lifecycle runs skipped: %s" % str(e)[:200]
     # ---------------- known finding F-C14-1: a frame that begins with the marker bytes
     w, h, fps = 4, 3, 2
     settings = dict(min=1, max=2, preview=1, const=True, throttle=False, motion=dict(fam_e2e.FIXED_MOTION, **{"trigger-frames": 1}))
@@ -209,7 +227,7 @@ def run(ctx):
                     traces_validated_against_impl=len(hdrs) + len(runs) + 1,
                     samples=[dict(header=scripts[0]["header"], encoded=hdrs[0].get("text"), parsed=hdrs[0].get("parsed"))],
                     exhaustive=True, design={k: (sorted(v) if isinstance(v, set) else v) for k, v in consts.items()},
-                    headers_round_tripped=len(hdrs), restart_detection_scripts=len(cs), restart_detection_frames_after_reset=nafter, truncation_points=cuts, e2e_runs=len(runs),
+                    headers_round_tripped=len(hdrs), connection_lifecycle=lc, restart_detection_scripts=len(cs), restart_detection_frames_after_reset=nafter, truncation_points=cuts, e2e_runs=len(runs),
                     e2e_frames=sum(1 for rn in runs if rn["kind"] == "predict" for e in rn["model_events"] if e["ev"] == "frame"),
                     e2e_markers=sum(1 for rn in runs if rn["kind"] == "predict" for e in rn["model_events"] if e["ev"] == "clear"),
                     evaluations=len(hdrs) + cuts + len(runs), distinct_nontrivial=len({json.dumps(s, sort_keys=True) for s in scripts}) + len(runs),
